@@ -27,7 +27,7 @@ META = {
     "text": "gitignore(5) is written as a TLA+ specification (line parsing incl. comments, \\# \\! escapes and the "
             "trailing-blank rule; wildmatch with '*' '?' classes and '**' never crossing '/'; anchoring; directory-only; "
             "last match wins; deeper file overrides shallower; nothing beneath an excluded directory is visited). TLC "
-            "enumerates repositories (3 trees of <= 3 levels with names such as 'd.', '-x', '*', '.h', '!a', '#a', 'a ' "
+            "enumerates repositories (4 trees of <= 3 levels with names such as 'd.', '-x', '*', '.h', '!a', '#a', 'a ' "
             "x ignore files at the root and/or a sub-directory with <= 2 (quick) / 3 (thorough) lines from the line grammar "
             "x case-insensitivity) and emits the predicted visible set; each repository is built on disk, the git binary "
             "must agree with the specification (self-test of the oracle), and `rg --files --hidden` must list exactly the "
@@ -55,6 +55,9 @@ PENDING_FINDINGS = [
      "what": "an escaped blank followed by unescaped trailing blanks (`a\\ ` + ` `): git drops only the unescaped "
              "blanks and ignores the file `a `; add_line's trim_right drops the escaped blank too, leaving the invalid "
              "glob `a\\` (error: dangling '\\'), so rg lists `a `"},
+    {"match": {"trailing_tab_line": True, "name_ends_with_dot": False},
+     "what": "a trailing tab is part of the pattern for git (only unescaped trailing SPACES are dropped), but add_line's "
+             "trim_right drops any trailing whitespace: for the line `b.c<TAB>` git ignores nothing, rg ignores b.c"},
 ]
 
 RG_BASE = ["--files", "--hidden", "--no-ignore-global", "--no-ignore-parent", "--no-ignore-exclude", "--no-config"]
@@ -196,7 +199,8 @@ def make_sig(rec, diff, walker, listed=(), hidden=()):
             "case_insensitive": bool(scn["ci"]), "walker": walker, "direction": direction,
             # mechanisms of the pending findings (pinned so that nothing else hides behind them)
             "bare_negation_line": any(l.rstrip(" ") == "!" for l in lines),
-            "escaped_blank_then_trailing_blank": any(_escaped_then_blank(l) for l in lines)}
+            "escaped_blank_then_trailing_blank": any(_escaped_then_blank(l) for l in lines),
+            "trailing_tab_line": any(l.rstrip(" ").endswith("\t") for l in lines)}
 
 
 def _escaped_then_blank(line):
@@ -292,7 +296,8 @@ def explore(chk, cfgname, rg, timeout):
             if what is not None:
                 pend_hits[what] = pend_hits.get(what, 0) + 1
                 if pend_hits[what] == 1:
-                    chk.extra["pending_example"] = {"scenario": describe(scn), "why": why, "walker": w}
+                    chk.extra.setdefault("pending_examples", []).append(
+                        {"finding": what[:60] + "...", "scenario": describe(scn), "why": why, "walker": w})
                 continue
             chk.violation(sig, record)
         # coverage accounting
@@ -334,7 +339,7 @@ def main(tier):
                 "(pruning, ignore+re-include on the same file, nested override, ...) are counted in scenario_categories.")
     chk.assumptions = ["the TLA+ specification is the oracle; it agreed with git %s on every generated repository of this run "
                        "(git -c core.ignoreCase=true stands in for --ignore-file-case-insensitive)" % git_version(),
-                       "bounds: trees T1-T3 and the line grammar / families of specs/ignore/MCGitignore.tla "
+                       "bounds: trees T1-T4 and the line grammar / families of specs/ignore/MCGitignore.tla "
                        "(quick: <= 2 lines per repository, thorough: <= 3)",
                        "bracket expressions contain lower-case members only",
                        "TLC fingerprint collisions improbable"]
